@@ -42,7 +42,7 @@ def main():
           for pid in ALL if pid not in [c["property_id"] for c in checks]]
     m = {
         "version": 1,
-        "setup_cmd": "cd lean && lake build",
+        "setup_cmd": "tools/setup.sh",
         "hooks": {
             "guard": "MENPO_VERIF",
             "enable": "the checks export MENPO_VERIF=1 before importing menpo from /repo (no build step: "
